@@ -638,9 +638,9 @@ def instances(tier):
             out.append(inst_public_extremum(which, (1, 0, 0, 0, 2), {0: 3}))
     out.append(inst_arg_nd(((1, 1), (2,)), "argmax"))
     out.append(inst_arg_nd(((1, 1), (1, 1)), "argmin"))
-    out.append(inst_moment((2, 2), 3, 0, False))
     out.append(inst_moment((2, 1, 2), 3, 0, True))
     if not q:
+        out.append(inst_moment((2, 2), 3, 0, False))  # (cubic NRA: z3 answers unknown on it when the machine is loaded)
         out.append(inst_moment((2, 2), 4, 0, False))
         out.append(inst_moment((2, 2, 2), 3, 1, True))
     return out
